@@ -415,6 +415,11 @@ class Check:
     def finish(self, level="model_checking", rule="", exhaustive=False):
         for what, n in sorted(self.known_hit.items()):
             print(f"KNOWN-FINDING: property={self.prop} {what} ({n} case(s))")
+        if self.violations:
+            import collections
+            cls = collections.Counter(":".join(c.split(":")[:3])[:100] for c, _, _ in self.violations)
+            for k, n in cls.most_common(40):
+                log(f"[violation-class] {n:6d}  {k}")
         shown = set()
         for construct, path, what in self.violations:
             if len(shown) < 10 and construct not in shown:
